@@ -648,6 +648,25 @@ func (pc *pathCheck) digestOK(dv ssa.Value, at *ssa.Call, fr *pframe) (bool, str
 // digestGuarded: a dominating ok-edge of Validate() on the same digest at the given point.
 func (pc *pathCheck) digestGuarded(dv, o ssa.Value, at *ssa.Call) (bool, string) {
 	for _, g := range an.GuardingEdges(at.Block()) {
+		// the validation done by a pre-check step (`if err := dr.blobReadable(d, locked); err != nil { return }`): every
+		// execution of the step that answers nil has passed the ok-edge of Validate() on the digest it was given
+		for _, fe := range an.ImpliedHelperEdges(g) {
+			hifi := an.BlockIf(fe.From)
+			if hifi == nil {
+				continue
+			}
+			hx, hNil, hok := an.NilTest(hifi)
+			if !hok || fe.Succ != hNil {
+				continue
+			}
+			hv, _ := an.CallOf(hx)
+			if hv == nil || !an.IsMethod(hv, digestPkg, "Digest", "Validate") {
+				continue
+			}
+			if cv, mapped := fe.ArgOf(hv.Call.Args[0]); mapped && (an.Origin(cv) == o || sameSource(cv, dv)) {
+				return true, ""
+			}
+		}
 		x, nilSucc, ok := an.NilTest(g.If())
 		if !ok || g.Succ != nilSucc {
 			continue
